@@ -1,5 +1,176 @@
-import Koreo.HotReload
+/-
+  C16 — Hot reload is coherent: dependents are re-prepared after every change.
+  Property theorems only; the inductive invariant and its preservation lemmas are in
+  `Koreo/Lemmas/HotReload.lean`, the transition system in `Koreo/HotReload.lean`.
+
+  Quantification: every universe of resources `R` (any size), every rank function (i.e. every
+  acyclic declaration of dependencies), every finite history of offers / deletes / monitor
+  steps in any interleaving (`Reachable`).
+-/
+import Koreo.Lemmas.HotReload
+import Koreo.Lemmas.HotReloadLive
+import Koreo.Gen.CacheFacts
+
 namespace Koreo.C16
 open Koreo.HotReload
-theorem placeholder : (init : State Nat).clock = 0 := rfl
+variable {R : Type} [DecidableEq R]
+
+/-- The atomicity facts the transition system relies on (offers, deletes and re-preparations do
+    not suspend; the registry never awaits; the monitor awaits only its queue and the
+    re-preparation; the drop rule is `event_time <= own prepare start`; `_handle_notifications`
+    sets the prepare time, replaces subscriptions, notifies, then starts the monitor) are
+    re-read from the current cache.py / registry.py on every run. -/
+theorem atomicity_facts_hold : Koreo.Gen.CacheFacts.allHold = true := by decide
+
+/-- reachable by some interleaving of operations and monitor steps whose declared dependencies
+    respect `rank` -/
+def Reachable (rank : R → Nat) (s : State R) : Prop :=
+  ∃ acts : List (Action R), (∀ a ∈ acts, Ranked rank a) ∧ s = run init acts
+
+theorem reachable_inv {rank : R → Nat} {s : State R} (h : Reachable rank s) : Inv rank s := by
+  obtain ⟨acts, ha, rfl⟩ := h
+  exact inv_run acts (inv_init rank) ha
+
+/-- **Coherence.**  Once the system is idle, each cached entry was built from the current
+    state of everything it depends on — for any timing of offers, deletes and monitor steps. -/
+theorem coherent_when_idle {rank : R → Nat} {s : State R} (h : Reachable rank s) (hi : Idle s) :
+    Coherent s := by
+  have inv := reachable_inv h
+  intro r e hc d hd
+  rcases inv.fresh r e hc d hd with h1 | ⟨q, hq, t, ht, _⟩
+  · exact h1
+  · -- a pending event contradicts idleness: the entry has dependencies, so it has a monitor
+    have hne : e.deps ≠ [] := fun h0 => by rw [h0] at hd; cases hd
+    have hmon := inv.watched r e hc hne
+    have ⟨hns, hw⟩ := hi r
+    have : s.mon r = .waiting := by
+      cases hm : s.mon r with
+      | none => exact absurd hm hmon
+      | starting => exact absurd hm hns
+      | waiting => rfl
+    rw [hw this] at hq; cases hq; cases ht
+
+/-- coherence is transitive by construction: the entry of a dependency is itself coherent, so an
+    idle system is consistent along every dependency path -/
+theorem coherent_along_paths {rank : R → Nat} {s : State R} (h : Reachable rank s) (hi : Idle s)
+    (r d : R) (e ed : Entry R) (hc : s.cache r = some e) (hd : d ∈ e.deps)
+    (hcd : s.cache d = some ed) : e.seen d = s.gen d ∧ ∀ d' ∈ ed.deps, ed.seen d' = s.gen d' :=
+  ⟨coherent_when_idle h hi r e hc d hd, fun d' hd' => coherent_when_idle h hi d ed hcd d' hd'⟩
+
+/-- a change that is not yet reflected is always on its way: between idle points every stale
+    dependency of a cached entry has an unprocessed event newer than the entry's preparation -/
+theorem stale_implies_pending {rank : R → Nat} {s : State R} (h : Reachable rank s)
+    (r : R) (e : Entry R) (hc : s.cache r = some e) (d : R) (hd : d ∈ e.deps)
+    (hstale : e.seen d ≠ s.gen d) : Pending s r ∧ s.mon r ≠ .none := by
+  have inv := reachable_inv h
+  refine ⟨(inv.fresh r e hc d hd).resolve_left hstale, ?_⟩
+  exact inv.watched r e hc (fun h0 => by rw [h0] at hd; cases hd)
+
+/-- **A deleted resource leaves no watcher behind**: no subscriptions, no registry queue, no
+    monitor — in every reachable state, not only at idle points. -/
+theorem deleted_leaves_no_watcher {rank : R → Nat} {s : State R} (h : Reachable rank s) (r : R)
+    (hc : s.cache r = none) : s.subs r = [] ∧ s.queue r = none ∧ s.mon r = .none := by
+  obtain ⟨a, b, c⟩ := (reachable_inv h).uncached r hc
+  exact ⟨a, c, b⟩
+
+/-- an unversioned (or matching-version) delete does uncache -/
+theorem delete_uncaches (s : State R) (r : R) : (delete s r none).cache r = none := by
+  cases hc : s.cache r with
+  | none => simp [delete, hc]
+  | some e => rw [delete_eq hc rfl]; simp [deleteState]
+
+/-- a delete that names a stale version changes nothing -/
+theorem stale_delete_noop (s : State R) (r : R) (e : Entry R) (v : Nat) (hc : s.cache r = some e)
+    (hv : v ≠ e.version) : delete s r (some v) = s := by
+  simp [delete, hc, staleVersion, hv]
+
+/-- **A (re-)offered resource is watched again**: every cached entry is subscribed to exactly
+    its declared dependencies, has a registry queue and, if it has dependencies, a monitor —
+    in every reachable state, in particular straight after delete-then-offer. -/
+theorem cached_is_watched {rank : R → Nat} {s : State R} (h : Reachable rank s) (r : R)
+    (e : Entry R) (hc : s.cache r = some e) :
+    s.subs r = e.deps ∧ (s.queue r).isSome = true ∧ (e.deps ≠ [] → s.mon r ≠ .none) := by
+  have inv := reachable_inv h
+  exact ⟨(inv.cached r e hc).1, (inv.cached r e hc).2, inv.watched r e hc⟩
+
+/-- offering a version that is not the cached one always (re)prepares: the new entry carries the
+    offered version and dependencies and was built from the current generations -/
+theorem offer_new_version_prepares (s : State R) (r : R) (v : Nat) (deps : List R)
+    (hnew : ∀ e, s.cache r = some e → e.version ≠ v) :
+    ∃ e, (offer s r v deps).cache r = some e ∧ e.version = v ∧ e.deps = deps ∧
+      (offer s r v deps).gen r = s.gen r + 1 := by
+  have : offer s r v deps = offerNew s r v deps := by
+    unfold offer
+    cases hc : s.cache r with
+    | none => rfl
+    | some e => simp [hnew e hc]
+  rw [this, offerNew_eq, handle_eq]
+  have hg : (register (tick s) r).gen = s.gen := by
+    unfold register; split <;> rfl
+  exact ⟨{ version := v, deps := deps, seen := (register (tick s) r).gen }, by simp [commitState],
+    rfl, rfl, by simp [commitState, hg]⟩
+
+/-- offering the cached version again is a no-op (nothing is prepared, nobody is notified) -/
+theorem offer_same_version_noop (s : State R) (r : R) (e : Entry R) (deps : List R)
+    (hc : s.cache r = some e) : offer s r e.version deps = s := by
+  simp [offer, hc]
+
+/-- the subscription graph always respects the rank, so it is acyclic and the registry's cycle
+    check (C17) never refuses a subscription issued by the cache -/
+theorem subscriptions_ranked {rank : R → Nat} {s : State R} (h : Reachable rank s) :
+    ∀ x, ∀ d ∈ s.subs x, rank d < rank x := (reachable_inv h).ranked
+
+/-- **Idleness is attainable** (so the premise of `coherent_when_idle` is not vacuous): from every
+    reachable state, letting each monitor run once, in rank order, reaches an idle — hence
+    coherent — reachable state without any further operation. -/
+theorem eventually_idle {rank : R → Nat} {s : State R} (h : Reachable rank s) :
+    ∃ rs : List R, Idle (run s (rs.map Action.bg)) ∧ Reachable rank (run s (rs.map Action.bg)) ∧
+      Coherent (run s (rs.map Action.bg)) := by
+  obtain ⟨acts, ha, rfl⟩ := h
+  let le : R → R → Bool := fun a b => decide (rank a ≤ rank b)
+  let rs := (offered acts).mergeSort le
+  have hsorted : rs.Pairwise (fun a b => rank a ≤ rank b) := by
+    have := List.pairwise_mergeSort (le := le)
+      (fun a b c hab hbc => by simp only [le, decide_eq_true_eq] at *; omega)
+      (fun a b => by simp only [le, Bool.or_eq_true, decide_eq_true_eq]; omega) (offered acts)
+    exact this.imp (fun hab => by simpa [le] using hab)
+  have hcover : ∀ x, x ∈ rs ∨ (run init acts).mon x = .none ∨
+      (Quiet (run init acts) x ∧ ∀ y ∈ rs, ¬ rank y < rank x) := by
+    intro x
+    by_cases hm : (run init acts).mon x = .none
+    · exact Or.inr (Or.inl hm)
+    · rcases mon_only_offered acts init x hm with h0 | h0
+      · exact absurd rfl h0
+      · exact Or.inl (List.mem_mergeSort.2 h0)
+  have hreach : Reachable rank (run (run init acts) (rs.map Action.bg)) := by
+    refine ⟨acts ++ rs.map Action.bg, ?_, by simp [run, List.foldl_append]⟩
+    intro a hmem
+    rcases List.mem_append.1 hmem with h1 | h1
+    · exact ha a h1
+    · obtain ⟨r, _, rfl⟩ := List.mem_map.1 h1; trivial
+  have hidle := settle_aux rs (inv_run acts (inv_init rank) ha) hsorted hcover
+  exact ⟨rs, hidle, hreach, coherent_when_idle hreach hidle⟩
+
+/-! ## non-vacuity: a concrete history (delete, then offer again at once) reaches a non-trivial
+    state; one monitor step later the system is idle, and it is coherent -/
+
+def demoRank : Nat → Nat := id
+
+def demoActs : List (Action Nat) :=
+  [.offer 0 1 [], .offer 1 1 [0], .bg 1, .delete 1 none, .offer 1 2 [0], .offer 0 2 [], .bg 1]
+
+example : ∀ a ∈ demoActs, Ranked demoRank a := by
+  intro a ha
+  simp only [demoActs, List.mem_cons, List.mem_nil_iff, or_false] at ha
+  rcases ha with rfl | rfl | rfl | rfl | rfl | rfl | rfl <;> simp [Ranked, demoRank]
+
+/-- before the last monitor step entry 1 is stale (built from generation 1 of resource 0, which is
+    at generation 2) and has a pending event; after it the entry is current and the system idle -/
+example : ((run init (demoActs.take 6)).cache 1).map (fun e => e.seen 0) = some 1 ∧
+    (run init (demoActs.take 6)).gen 0 = 2 ∧
+    (run init (demoActs.take 6)).queue 1 = some [11] ∧
+    ((run init demoActs).cache 1).map (fun e => e.seen 0) = some 2 ∧
+    (run init demoActs).queue 1 = some [] ∧ (run init demoActs).mon 1 = .waiting := by
+  decide
+
 end Koreo.C16
